@@ -417,6 +417,33 @@ Definition emit_literal (sqlite bs : bool) (l : lit) : option str :=
   | LTimestamp v => Some (emit_datetime sqlite s_DATETIME s_TIMESTAMP v)
   end.
 
+(* ------------------------------------------------------------------ translate_literal on the Rust-side Literal (hook verif:literal) *)
+(* prqlc_parser::lexer::lr::Literal as translate_literal receives it -- from the lexer (rlit_of_lit), from constant
+   folding (negative integers), from relation literals, from std functions.  String and RawString share one arm. *)
+Inductive rlit :=
+| RNull | RInt (z : Z) | RFloat | RBool (b : bool) | RString (s : str)
+| RDate (s : str) | RTime (s : str) | RTimestamp (s : str) | RValueAndUnit.
+
+Definition emit_rlit (sqlite bs : bool) (l : rlit) : option str :=
+  match l with
+  | RNull => Some emit_null
+  | RInt z => Some (emit_int z)
+  | RFloat => None                           (* format!("{f:?}"): Model/FloatFmt.v works on the decimal value, not on the bits *)
+  | RBool b => Some (emit_bool b)
+  | RString s => Some (emit_literal_string bs s)
+  | RDate v => Some (emit_datetime sqlite s_DATE s_DATE v)
+  | RTime v => Some (emit_datetime sqlite s_TIME s_TIME v)
+  | RTimestamp v => Some (emit_datetime sqlite s_DATETIME s_TIMESTAMP v)
+  | RValueAndUnit => None                    (* intervals: per-dialect quoting styles, not modelled *)
+  end.
+
+Definition rlit_of_lit (l : lit) : option rlit :=
+  match l with
+  | LNull => Some RNull | LInt n => Some (RInt (Z.of_N n)) | LFloat _ _ => Some RFloat | LBool b => Some (RBool b)
+  | LString s | LRaw s => Some (RString s) | LFString _ => None
+  | LDate v => Some (RDate v) | LTime v => Some (RTime v) | LTimestamp v => Some (RTimestamp v)
+  end.
+
 (* ------------------------------------------------------------------ dialects: who doubles backslashes, who reads them as escapes *)
 (* The two tables are parameters, instantiated with Gen/GenLiteral.v:
      wt = writer_backslash_doubling  (sql/dialect.rs: Dialect -> handler -> string_literal_backslash_escape)
